@@ -86,6 +86,9 @@ func (e *Engine) analyse(fn *ssa.Function, blk *Block) (rep *FuncReport) {
 	e.replayInfo[name] = ri
 	for _, p := range fn.Params {
 		v := e.freshVal(st, p.Type(), "in_"+p.Name())
+		if sv, ok := v.(*SliceV); ok {
+			sv.Ext = true // the caller keeps its own reference to this backing array
+		}
 		fr.Vals[p] = v
 		fr.Args = append(fr.Args, v)
 		st.Entry[p.Name()] = v
